@@ -29,6 +29,14 @@ PROPS = {
         "trivial_tags": ["empty"],
         "level_text": "wip", "level_note": "wip",
     },
+    "C06": {
+        "theorems": ["C06_sound", "C06_method", "C06_404", "C06_one_template", "C06_whole_template", "C06_405",
+                     "C06_literal_precedence", "C06_order_independent", "C06_decode_once"],
+        "suites": [{"name": "router", "quick": 1600, "thorough": 40000}, {"name": "templates", "quick": 400, "thorough": 20000}],
+        "required_tags": ["router.outcome:404", "router.outcome:405", "router.outcome:found", "router.match:small", "router.match:rich", "router.match:permuted", "template.parse:generated"],
+        "trivial_tags": [],
+        "level_text": "wip", "level_note": "wip",
+    },
 }
 
 NOT_APPLICABLE = {}
